@@ -161,6 +161,7 @@ func scenSingleMany(transport string, n int, withHeader bool) *connRun {
 	}
 	var closer jsonrpc.ClientCloser
 	var err error
+	var hdrGiven http.Header
 	if transport == "custom" {
 		closer, err = jsonrpc.NewCustomClient("C", []interface{}{&cl}, func(ctx context.Context, body []byte) (io.ReadCloser, error) {
 			var buf bytes.Buffer
@@ -171,6 +172,7 @@ func scenSingleMany(transport string, n int, withHeader bool) *connRun {
 		var hdr http.Header
 		if withHeader {
 			hdr = http.Header{"Authorization": []string{"Bearer x"}, "X-Trace": []string{"a", "b"}}
+			hdrGiven = hdr
 		}
 		closer, err = jsonrpc.NewMergeClient(context.Background(), ts.URL, "C", []interface{}{&cl}, hdr)
 	}
@@ -219,6 +221,14 @@ func scenSingleMany(transport string, n int, withHeader bool) *connRun {
 	for _, rec := range recs {
 		if run.Oracle == "" && rec.Outcome != "ok" {
 			run.Oracle = fmt.Sprintf("%d callers at once over %s: call %d ended as %q instead of its own result", n, transport, rec.Token, rec.Outcome)
+		}
+	}
+	// the header object the application handed to the constructor is read by every call; if the library writes into it,
+	// all concurrent calls of the client share one map with the transport's goroutines (a data race that aborts the process
+	// in some schedules, not in all)
+	if run.Oracle == "" && hdrGiven != nil {
+		if ct := hdrGiven.Get("Content-Type"); ct != "" || len(hdrGiven) != 2 {
+			run.Oracle = fmt.Sprintf("%d callers at once over http: the library wrote into the request header object given to the constructor (Content-Type=%q, %d keys): all calls of the client share one map with the transport", n, ct, len(hdrGiven))
 		}
 	}
 	return run
